@@ -3,6 +3,14 @@
 //! raw constructor): whether a representation is reachable through the public API is argued by the invariant, not here.
 use math::{fields::{f128, f62, f64}, FieldElement, StarkField, ExtensibleField};
 
+// the real (crate-private) MDS kernels, compiled from /repo's source files
+#[path = "/repo/crypto/src/hash/mds/mds_f64_12x12.rs"]
+#[allow(dead_code)]
+mod mds12;
+#[path = "/repo/crypto/src/hash/mds/mds_f64_8x8.rs"]
+#[allow(dead_code)]
+mod mds8;
+
 fn e64(v: u128) -> f64::BaseElement { f64::BaseElement::from_mont(v as u64) }
 fn r64(e: f64::BaseElement) -> u128 { e.inner() as u128 }
 fn e62(v: u128) -> f62::BaseElement { unsafe { core::mem::transmute::<u64, f62::BaseElement>(v as u64) } }
@@ -29,6 +37,10 @@ fn main() {
         "f64.exp7" => vec![r64(e64(a[0]).exp7())],
         "f64.mul2" => { let r = <f64::BaseElement as ExtensibleField<2>>::mul([e64(a[0]), e64(a[1])], [e64(a[2]), e64(a[3])]); vec![r64(r[0]), r64(r[1])] },
         "f64.mul3" => { let r = <f64::BaseElement as ExtensibleField<3>>::mul([e64(a[0]), e64(a[1]), e64(a[2])], [e64(a[3]), e64(a[4]), e64(a[5])]); vec![r64(r[0]), r64(r[1]), r64(r[2])] },
+        "mds12.freq" => { let mut x = [0u64; 12]; for i in 0..12 { x[i] = a[i] as u64; } mds12::mds_multiply_freq(x).iter().map(|&v| v as u128).collect() },
+        "mds8.freq" => { let mut x = [0u64; 8]; for i in 0..8 { x[i] = a[i] as u64; } mds8::mds_multiply_freq(x).iter().map(|&v| v as u128).collect() },
+        "mds12.mul" => { let mut x = [f64::BaseElement::ZERO; 12]; for i in 0..12 { x[i] = e64(a[i]); } mds12::mds_multiply(&mut x); x.iter().map(|&v| r64(v)).collect() },
+        "mds8.mul" => { let mut x = [f64::BaseElement::ZERO; 8]; for i in 0..8 { x[i] = e64(a[i]); } mds8::mds_multiply(&mut x); x.iter().map(|&v| r64(v)).collect() },
         "f62.add" => vec![r62(e62(a[0]) + e62(a[1]))],
         "f62.sub" => vec![r62(e62(a[0]) - e62(a[1]))],
         "f62.mul" => vec![r62(e62(a[0]) * e62(a[1]))],
